@@ -388,6 +388,19 @@ def monitor_step(case, st, ob):
         if effects or ob["forward"]:
             return {"sig": "unauthorized-reached-upstream", "why": "unauthorized request (%s) reached select=%s addconn=%s forward=%d, status %d" % (why, ob["select"], ob["addconn"], ob["forward"], ob["status"])}
         return {"sig": "unauthorized-not-401", "why": "unauthorized request (%s) answered %d %r instead of 401" % (why, ob["status"], ob["err"])}
+    # authorized: "a token listing no endpoints may use any", and one that lists the named endpoint may use that one
+    if ob["status"] == 401 and not effects and "not permitted" in (ob.get("err") or ""):
+        handler = "s.upstreamRoute" if (st["port"] == "upstream" and st["path"].startswith("/piko/v1/upstream/")) else (
+            "s.proxyTCPRoute" if st["method"] == "GET" and re.fullmatch(r"/_piko/v1/tcp/[^/]+", st["path"]) else "s.proxyHTTPRoute")
+        try:
+            want = named_endpoint(st, handler)
+        except Exception:
+            want = None
+        if st["port"] in ("proxy", "upstream") and want:
+            if not (t["has_eps"] and t["endpoints"]):
+                return {"sig": "unrestricted-token-refused", "why": "a valid token that lists no endpoints was refused (401 %r) for endpoint %r" % (ob["err"], want)}
+            if want in t["endpoints"]:
+                return {"sig": "permitted-endpoint-refused", "why": "a valid token listing %s was refused (401 %r) for endpoint %r" % (t["endpoints"], ob["err"], want)}
     # authorized: endpoint confinement
     if effects:
         if len(effects) != 1:
